@@ -544,6 +544,10 @@ impl Executor {
                     log::trace!("Converting bytes {:?} into an integer.", &input_byte_vector);
 
                     let bytes = input_byte_vector.into_bytes()?;
+                    // check the length before materialising the (possibly astronomically long) rope
+                    if bytes.len() != 32 {
+                        return None;
+                    }
                     let bytes_vector: Vec<u8> = bytes.into();
 
                     let byte_vector_option: Option<[u8; 32]> = bytes_vector.try_into().ok();
